@@ -1233,3 +1233,130 @@ package decimal128
 //@ ensures !special(d) && !special(o) && coef(d) != 0 && coef(o) != 0 && !special(r) ==>
 //@    (rs(V, 0) < 0.1 && coef(r) == 0) || (rs(V, 0) >= 0.1 && RndOK(DefaultRoundingMode, sign(r), rs(V, bexp(r)), coef(r), bexp(r)))
 //@ props C02 C19 C20
+
+// ---------------------------------------------------------------------------
+// exp.go: operand-class behaviour of the elementary functions (C15). The bodies
+// that compute the finite results (series, Newton iterations in a 57-digit
+// working format) are outside the contracts: "limit" marks where the contract's
+// scope ends, and every ensures clause is proved vacuous beyond that point.
+// ---------------------------------------------------------------------------
+
+//@ func Exp
+//@ returns (r)
+//@ ensures isnan(d) ==> r == d
+//@ ensures isinf(d) && !sign(d) ==> isinf(r) && !sign(r) && lo(r) == 0
+//@ ensures isinf(d) && sign(d) ==> !special(r) && coef(r) == 0 && bexp(r) == 0 && !sign(r)
+//@ ensures !special(d) && coef(d) == 0 ==> !special(r) && coef(r) == 1 && bexp(r) == 6176 && !sign(r)
+//@ limit before "dSig, dExp := d.decompose()"
+//@ props C15 C20
+
+//@ func Exp2
+//@ returns (r)
+//@ ensures isnan(d) ==> r == d
+//@ ensures isinf(d) && !sign(d) ==> isinf(r) && !sign(r) && lo(r) == 0
+//@ ensures isinf(d) && sign(d) ==> !special(r) && coef(r) == 0 && bexp(r) == 0 && !sign(r)
+//@ ensures !special(d) && coef(d) == 0 ==> !special(r) && coef(r) == 1 && bexp(r) == 6176 && !sign(r)
+//@ limit before "dSig, dExp := d.decompose()"
+//@ props C15 C20
+
+//@ func Exp10
+//@ returns (r)
+//@ ensures isnan(d) ==> r == d
+//@ ensures isinf(d) && !sign(d) ==> isinf(r) && !sign(r) && lo(r) == 0
+//@ ensures isinf(d) && sign(d) ==> !special(r) && coef(r) == 0 && bexp(r) == 0 && !sign(r)
+//@ ensures !special(d) && coef(d) == 0 ==> !special(r) && coef(r) == 1 && bexp(r) == 6176 && !sign(r)
+//@ limit before "dSig, dExp := d.decompose()"
+//@ props C15 C20
+
+//@ func Expm1
+//@ returns (r)
+//@ ensures isnan(d) ==> r == d
+//@ ensures isinf(d) && !sign(d) ==> isinf(r) && !sign(r) && lo(r) == 0
+//@ ensures isinf(d) && sign(d) ==> !special(r) && coef(r) == 1 && bexp(r) == 6176 && sign(r)
+//@ ensures !special(d) && coef(d) == 0 && !sign(d) ==> !special(r) && coef(r) == 0 && !sign(r)
+//@ ensures !special(d) && coef(d) == 0 && sign(d) ==> !special(r) && coef(r) == 0 && sign(r)
+//@ limit before "dSig, dExp := d.decompose()"
+//@ props C15 C20
+
+//@ func Log
+//@ returns (r)
+//@ ensures isnan(d) ==> r == d
+//@ ensures isinf(d) && !sign(d) ==> isinf(r) && !sign(r) && lo(r) == 0
+//@ ensures isinf(d) && sign(d) ==> isnan(r) && !sign(r) && hi(r) == 0x7c00000000000000 && lo(r) == payloadOpLog + 256*payloadValNegInfinite
+//@ ensures !special(d) && coef(d) == 0 ==> isinf(r) && sign(r) && lo(r) == 0
+//@ ensures !special(d) && coef(d) != 0 && sign(d) ==> isnan(r) && !sign(r) && hi(r) == 0x7c00000000000000 && lo(r) == payloadOpLog + 256*payloadValNegFinite
+//@ limit before "dSig, dExp := d.decompose()"
+//@ props C15 C20
+
+//@ func Log2
+//@ returns (r)
+//@ ensures isnan(d) ==> r == d
+//@ ensures isinf(d) && !sign(d) ==> isinf(r) && !sign(r) && lo(r) == 0
+//@ ensures isinf(d) && sign(d) ==> isnan(r) && !sign(r) && hi(r) == 0x7c00000000000000 && lo(r) == payloadOpLog2 + 256*payloadValNegInfinite
+//@ ensures !special(d) && coef(d) == 0 ==> isinf(r) && sign(r) && lo(r) == 0
+//@ ensures !special(d) && coef(d) != 0 && sign(d) ==> isnan(r) && !sign(r) && hi(r) == 0x7c00000000000000 && lo(r) == payloadOpLog2 + 256*payloadValNegFinite
+//@ limit before "dSig, dExp := d.decompose()"
+//@ props C15 C20
+
+//@ func Log10
+//@ returns (r)
+//@ ensures isnan(d) ==> r == d
+//@ ensures isinf(d) && !sign(d) ==> isinf(r) && !sign(r) && lo(r) == 0
+//@ ensures isinf(d) && sign(d) ==> isnan(r) && !sign(r) && hi(r) == 0x7c00000000000000 && lo(r) == payloadOpLog10 + 256*payloadValNegInfinite
+//@ ensures !special(d) && coef(d) == 0 ==> isinf(r) && sign(r) && lo(r) == 0
+//@ ensures !special(d) && coef(d) != 0 && sign(d) ==> isnan(r) && !sign(r) && hi(r) == 0x7c00000000000000 && lo(r) == payloadOpLog10 + 256*payloadValNegFinite
+//@ limit before "dSig, dExp := d.decompose()"
+//@ props C15 C20
+
+//@ func Log1p
+//@ returns (r)
+//@ ensures isnan(d) ==> r == d
+//@ ensures isinf(d) && !sign(d) ==> isinf(r) && !sign(r) && lo(r) == 0
+//@ ensures isinf(d) && sign(d) ==> isnan(r) && !sign(r) && hi(r) == 0x7c00000000000000 && lo(r) == payloadOpLog1p + 256*payloadValNegInfinite
+//@ ensures !special(d) && coef(d) == 0 ==> !special(r) && coef(r) == 0 && sign(r) == sign(d)
+//@ ensures !special(d) && coef(d) != 0 && sign(d) && cmpmag(coef(d), bexp(d), 1, 6176) == 0 ==> isinf(r) && sign(r) && lo(r) == 0
+//@ ensures !special(d) && coef(d) != 0 && sign(d) && cmpmag(coef(d), bexp(d), 1, 6176) == 1 ==> isnan(r) && !sign(r) && hi(r) == 0x7c00000000000000 && lo(r) == payloadOpLog1p + 256*payloadValNegFinite
+//@ limit before "l10 := int16(dSig.log10()) + dExp"
+//@ props C15 C20
+
+//@ func Sqrt
+//@ returns (r)
+//@ ensures isnan(d) ==> r == d
+//@ ensures isinf(d) && !sign(d) ==> r == d
+//@ ensures isinf(d) && sign(d) ==> isnan(r) && !sign(r) && hi(r) == 0x7c00000000000000 && lo(r) == payloadOpSqrt + 256*payloadValNegInfinite
+//@ ensures !special(d) && coef(d) == 0 ==> r == d
+//@ ensures !special(d) && coef(d) != 0 && sign(d) ==> isnan(r) && !sign(r) && hi(r) == 0x7c00000000000000 && lo(r) == payloadOpSqrt + 256*payloadValNegFinite
+//@ limit before "dSig, dExp := d.decompose()"
+//@ props C15 C20
+
+//@ func Cbrt
+//@ returns (r)
+//@ ensures special(d) ==> r == d
+//@ ensures !special(d) && coef(d) == 0 ==> r == d
+//@ limit before "dSig, dExp := d.decompose()"
+//@ props C15 C20
+
+//@ func Decimal.IsInf
+//@ mode bv
+//@ ensures result <==> (isinf(d) && (sign == 0 || (sign > 0 && !sign(d)) || (sign < 0 && sign(d))))
+//@ props C15 C20
+
+//@ func Inf
+//@ mode bv
+//@ returns (r)
+//@ ensures isinf(r) && sign(r) == (sign < 0) && lo(r) == 0
+//@ props C15 C20
+
+//@ func NaN
+//@ mode bv
+//@ returns (r)
+//@ ensures isnan(r) && !sign(r) && lo(r) == payloadOpNaN && hi(r) == 0x7c00000000000000
+//@ props C15 C20
+
+// Every bit pattern is exactly one of NaN, infinite, zero, finite non-zero.
+//@ lemma class_partition
+//@ mode bv
+//@ forall d decimal
+//@ holds (isnan(d) || isinf(d) || (!special(d) && coef(d) == 0) || (!special(d) && coef(d) != 0))
+//@   && !(isnan(d) && isinf(d)) && (special(d) <==> (isnan(d) || isinf(d)))
+//@ props C15
